@@ -1,11 +1,15 @@
 /-
-C12 — Trace views agree with the ingested spans (KERNEL part).
-Property theorems only.  They are about the Lean model `SigModel.Trace` (Model/Trace.lean), which mirrors
-`BuildSpanTree`, `FindPercentileData`/`quickSelect`, the fold of `MakeTracesDependancyGraph` and the fold of
-`ProcessRedTracesIngest`; the model is tied to /repo by the correspondence suite `trace`.
+C12 — Trace views agree with the ingested spans.
+Property theorems only.
+§1–4 (kernels) are about the Lean model `SigModel.Trace` (Model/Trace.lean), which mirrors `BuildSpanTree`,
+`FindPercentileData`/`quickSelect`, the fold of `MakeTracesDependancyGraph` and the fold of
+`ProcessRedTracesIngest`; tied to /repo by the correspondence suite `trace`.
+§5–8 (end to end) are about `SigModel.TraceE2E` (Model/TraceE2E.lean): the loop of `ProcessTraceIngest` with
+`spanToJson`, the two result-paging loops, the first page of the trace listing and the one-page reader of the
+dependency graph; tied to /repo by the suite `tracee2e`, which drives the real ingest and the four real views.
 
-NOT covered here (see `partial` in lib/props.py): the SPL queries the handlers generate, result paging,
-trace search, OTLP ingestion.
+NOT covered here (see `partial` in lib/props.py): the engine's evaluation of the SPL queries the handlers
+generate, the trace listing beyond one page of trace ids, the dependency graph beyond one response page.
 
 Vocabulary (Lemmas/C12c.lean, C12d.lean, C12b.lean):
   `wellFormed spans`    unique non-empty ids, every span has a parent entry, exactly one span without parent,
@@ -341,8 +345,7 @@ theorem stored_fields_counterexample :
     ¬ ∀ (sp : OSpan) (service : String) (d : List (String × JVal)), spanToJson sp service = some d →
         getKV d "service" = some (.str service) ∧ getKV d "status" = some (.str (statusName sp.status)) := by
   intro h
-  have := h { trace := "ab", sid := "01", pid := "", name := "op", start := 5, end_ := 9, status := some 2,
-              attrs := [("status", .str "paid"), ("service", .str "billing")] } "checkout"
+  have := h { trace := "ab", sid := "01", pid := "", name := "op", start := 5, end_ := 9, status := some 2, attrs := [("status", .str "paid"), ("service", .str "billing")] } "checkout"
     [("trace_id", .str "ab"), ("span_id", .str "01"), ("parent_span_id", .str ""), ("service", .str "billing"),
      ("name", .str "op"), ("start_time", .num 5), ("end_time", .num 9), ("duration", .num 4), ("status", .str "paid")]
     (by decide)
@@ -381,6 +384,13 @@ theorem gantt_every_span_once (P : Nat) (hP : 0 < P) (recs : List Rec) :
   intro x
   rw [foldl_gStep_keys]
   simp
+
+/-- C12.7c' the rank encoding that hands the collected map to the kernel `BuildSpanTree` keeps the spans apart:
+the kernel span list has one span per distinct span id string (the encoding is injective, `decode` undoes it) -/
+theorem gantt_kernel_ids_distinct (P : Nat) (hP : 0 < P) (recs : List Rec) :
+    ((gSpans (ganttCollect P recs)).map (·.id)).Nodup ∧
+    ((gSpans (ganttCollect P recs)).map (·.id)).length = ((ganttCollect P recs).spans.map (·.1)).length :=
+  ⟨gSpans_ids_nodup _ (gantt_every_span_once P hP recs).1, by simp [gSpans]⟩
 
 /-- C12.7d composition with C12.1: if the collected spans form a well-formed trace, the response contains
 every one of them exactly once beneath its parent — for every page size. -/
@@ -450,9 +460,7 @@ theorem searchRow_single_root (recs : List Rec) (t : String) (root : Rec) (sv nm
     (hroots : (ofTrace recs t).filter (fun r => r.pid == some "") = [root])
     (hsv : root.svc = some sv) (hnm : root.name = some nm)
     (hw1 : winStart * 1000000 ≤ f64 root.start) (hw2 : f64 root.end_ ≤ winEnd * 1000000) :
-    searchRow recs t = .ok (some { trace := t, svc := sv, op := nm, count := (ofTrace recs t).length,
-      errs := ((ofTrace recs t).filter (fun r => r.status == some "STATUS_CODE_ERROR")).length,
-      start := f64 root.start, end_ := f64 root.end_ }) := by
+    searchRow recs t = .ok (some { trace := t, svc := sv, op := nm, count := (ofTrace recs t).length, errs := ((ofTrace recs t).filter (fun r => r.status == some "STATUS_CODE_ERROR")).length, start := f64 root.start, end_ := f64 root.end_ }) := by
   unfold searchRow
   simp only [hroots]
   have hwin : (decide (winStart * 1000000 > f64 root.start) || decide (winEnd * 1000000 < f64 root.end_)) = false := by
